@@ -126,6 +126,8 @@ class RefSchulzZimm(Ref):
         self.raw_total = float(np.sum(self.pm))
         self.pm = self.pm / self.raw_total
         self.cum = np.cumsum(self.pm)
+        # exact mean of the mass function (the discretisation moves it away from Mn by a per cent or so when Mn * min(z, 1) is small)
+        self.mean_exact = float(np.sum(np.arange(len(self.pm)) * self.pm))
         self.total = float(self.cum[-1])
 
     def cdf(self, x):
